@@ -210,6 +210,28 @@ def _split_raise_test(t: ast.AST, pol: bool):
         for v in t.values:
             out += _split_raise_test(v, pol)
         return out
+    if isinstance(t, ast.BoolOp) and ((isinstance(t.op, ast.And) and pol) or (isinstance(t.op, ast.Or) and not pol)):
+        # a and (b or c)  ==  (a and b) or (a and c): the same sites as `if a: if b or c: raise`   (one inner disjunction, no quantifier)
+        vals = list(t.values)
+        splits = [_split_raise_test(v, pol) for v in vals]
+        multi = [i for i, sp in enumerate(splits) if len(sp) > 1]
+        quant = [i for i, sp in enumerate(splits) if len(sp) == 1 and sp[0][2] is not None]
+        if not multi and len(quant) == 1:
+            # a and any(Q(x) for x in X)  ==  exists x in X: a and Q(x): the same site as `if a: for x in X: if Q(x): raise`
+            i = quant[0]
+            dt, dpol, gens = splits[i][0]
+            lit = dt if dpol else ast.UnaryOp(op=ast.Not(), operand=dt)
+            rest = [(v if pol else ast.UnaryOp(op=ast.Not(), operand=v)) for j, v in enumerate(vals) if j != i]
+            return [(ast.copy_location(ast.BoolOp(op=ast.And(), values=rest + [lit]), t), True, gens)]
+        if len(multi) == 1 and all(g is None for sp in splits for (_, _, g) in sp):
+            i = multi[0]
+            out = []
+            for (dt, dpol, _g) in splits[i]:
+                lit = dt if dpol else ast.UnaryOp(op=ast.Not(), operand=dt)
+                rest = [(v if pol else ast.UnaryOp(op=ast.Not(), operand=v)) for j, v in enumerate(vals) if j != i]
+                conj = ast.BoolOp(op=ast.And(), values=rest[:i] + [lit] + rest[i:])
+                out.append((ast.copy_location(conj, t), True, None))
+            return out
     if isinstance(t, ast.Compare) and len(t.ops) > 1 and not pol:
         # not (a <= b <= c)  ==  not (a <= b)  or  not (b <= c)
         out = []
@@ -285,6 +307,97 @@ def sites_in(f: FuncInfo) -> List[Dict[str, object]]:
                 return ast.IfExp(test=ast.Compare(left=ast.Name(id=node.id, ctx=ast.Load()), ops=[ast.Is()], comparators=[ast.Constant(None)]),
                                  body=_copy.deepcopy(none_defaults[node.id]), orelse=ast.Name(id=node.id, ctx=ast.Load()))
             return node
+    # Store forwarding through the straight-line top of the function: `self.x = p` / `p = E` / `if T is None: T = D` executed before a
+    # site make `self.x`, `p` at the site stand for what was stored (so that validating the parameter before it is stored, or the
+    # attribute after it was stored, give the same row).  A store anywhere else (in a branch, a loop, an augmented assignment) ends it.
+    def _key_of(t) -> Optional[str]:
+        if isinstance(t, ast.Name):
+            return t.id
+        d_ = dotted(t)
+        return d_ if d_ and d_.startswith("self.") and d_.count(".") == 1 else None
+
+    def _stores_in(st) -> Set[str]:
+        out_ = set()
+        for n_ in ast.walk(st):
+            tg = []
+            if isinstance(n_, ast.Assign):
+                tg = n_.targets
+            elif isinstance(n_, (ast.AugAssign, ast.AnnAssign)):
+                tg = [n_.target]
+            elif isinstance(n_, (ast.For,)):
+                tg = [n_.target]
+            for t_ in tg:
+                for x_ in ast.walk(t_):
+                    k_ = _key_of(x_) if isinstance(x_, (ast.Name, ast.Attribute)) else None
+                    if k_:
+                        out_.add(k_)
+        return out_
+
+    class _Fwd(ast.NodeTransformer):
+        def __init__(self, env):
+            self.env = env
+
+        def visit_Name(self, node):
+            if isinstance(node.ctx, ast.Load) and node.id in self.env:
+                return _copy.deepcopy(self.env[node.id])
+            return node
+
+        def visit_Attribute(self, node):
+            d_ = dotted(node)
+            if isinstance(node.ctx, ast.Load) and d_ in self.env:
+                return _copy.deepcopy(self.env[d_])
+            return self.generic_visit(node)
+
+    def _simple(e) -> bool:
+        return isinstance(e, (ast.Name, ast.Constant)) or (isinstance(e, ast.Attribute) and dotted(e) is not None)
+
+    envs: List[Tuple[int, Dict[str, ast.AST]]] = []     # (first line of the top-level statement, env valid *before* it)
+    env_: Dict[str, ast.AST] = {}
+    for st_ in f.node.body:
+        envs.append((st_.lineno, dict(env_)))
+        if isinstance(st_, ast.Assign) and len(st_.targets) == 1 and _key_of(st_.targets[0]) and (_key_of(st_.targets[0]) in params or _key_of(st_.targets[0]).startswith("self.")):
+            k_ = _key_of(st_.targets[0])
+            v_ = _Fwd(env_).visit(_copy.deepcopy(st_.value))
+            if _simple(st_.value) or (isinstance(v_, ast.IfExp) and isinstance(st_.value, (ast.Name, ast.Attribute))):
+                env_[k_] = v_
+            else:
+                env_.pop(k_, None)
+            # whatever referred to the old value of k_ keeps its meaning only if it did not mention k_
+            for o_ in [o for o, ov in env_.items() if o != k_ and any(_key_of(x_) == k_ for x_ in ast.walk(ov) if isinstance(x_, (ast.Name, ast.Attribute)))]:
+                if not (isinstance(env_[k_], ast.IfExp) or _simple(env_[k_])) or True:
+                    pass
+            continue
+        if isinstance(st_, ast.If) and not st_.orelse and len(st_.body) == 1 and isinstance(st_.body[0], ast.Assign) and len(st_.body[0].targets) == 1 and \
+                isinstance(st_.test, ast.Compare) and len(st_.test.ops) == 1 and isinstance(st_.test.ops[0], ast.Is) and \
+                isinstance(st_.test.comparators[0], ast.Constant) and st_.test.comparators[0].value is None and \
+                _key_of(st_.test.left) and _key_of(st_.test.left) == _key_of(st_.body[0].targets[0]) and \
+                (_key_of(st_.test.left) in params or _key_of(st_.test.left).startswith("self.")):
+            k_ = _key_of(st_.test.left)
+            cur_v = env_.get(k_, _copy.deepcopy(st_.test.left))
+            if isinstance(cur_v, (ast.Name, ast.Attribute)):
+                env_[k_] = ast.IfExp(test=ast.Compare(left=_copy.deepcopy(cur_v), ops=[ast.Is()], comparators=[ast.Constant(None)]),
+                                     body=_Fwd(env_).visit(_copy.deepcopy(st_.body[0].value)), orelse=_copy.deepcopy(cur_v))
+                continue
+        for k_ in _stores_in(st_):
+            env_.pop(k_, None)
+            # values that mention k_ are stale from here on
+            for o_ in [o for o, ov in env_.items() if any(_key_of(x_) == k_ for x_ in ast.walk(ov) if isinstance(x_, (ast.Name, ast.Attribute)))]:
+                env_.pop(o_, None)
+
+    # the forwarding above covers `if p is None: p = D` position-sensitively: not applied a second time
+    for _ln, e_ in envs + [(10 ** 9, env_)]:
+        for k_, v_ in e_.items():
+            if isinstance(v_, ast.IfExp):
+                none_defaults.pop(k_, None)
+
+    def _env_at(lineno: int) -> Dict[str, ast.AST]:
+        best = {}
+        for ln_, e_ in envs:
+            if ln_ <= lineno:
+                best = e_
+            else:
+                break
+        return best
     pm_ = parents_map(f.node)
 
     def loops_of(node) -> List[ast.AST]:
@@ -337,6 +450,9 @@ def sites_in(f: FuncInfo) -> List[Dict[str, object]]:
             if extra:
                 m.update(extra)
             x = substitute_locals(e, ldefs)
+            ev_ = _env_at(getattr(e, "lineno", 0)) if hasattr(e, "lineno") else {}
+            if ev_:
+                x = _Fwd(ev_).visit(_copy.deepcopy(x))
             if none_defaults and getattr(e, "lineno", 10 ** 9) > 0:
                 x = _NoneDefault().visit(x)
             x = _SelfAlias().visit(x)
